@@ -234,7 +234,16 @@ func (fr *Frame) valOf(v ssa.Value) Val {
 	if val, ok := fr.vals[v]; ok {
 		return val
 	}
-	if _, ok := fr.lvs[v]; ok {
+	if lv, ok := fr.lvs[v]; ok {
+		if lv.kind == lvElem && fr.u.interior(lv.ty) && !fr.u.so.bv {
+			u := fr.u
+			u.elemRefFuns()
+			r := u.define("elemptr", "Int", app("elemref", lv.arr, lv.idx))
+			u.assume(and(app("<", r, "0"), eq(app("earr", r), lv.arr), eq(app("eidx", r), lv.idx)))
+			val := Val{T: r, Ty: v.Type(), S: "Int"}
+			fr.vals[v] = val
+			return val
+		}
 		fr.u.unsupportedAt(fr.curReach(), fmt.Sprintf("interior pointer %s used as value in %s", v.Name(), fr.fn.Name()))
 		return Val{T: "0", Ty: v.Type(), S: "Int"}
 	}
@@ -292,12 +301,35 @@ func (u *Unit) globComp(g *ssa.Global) (string, string) {
 	return "G_" + mangle(g.Pkg.Pkg.Path()+"."+g.Name()), u.so.sortOf(t)
 }
 
+// Interior pointers.  For the few struct types whose slice elements have their
+// address taken as a value (&cells[i] stored in another object), a pointer is an
+// Int that is either a positive object reference into M_T or a negative code
+// elemref(arr, idx) for the element idx of backing array arr (E_T).
+func (u *Unit) interior(t types.Type) bool {
+	return u.eng.interiorTypes[typeKey(t)]
+}
+
+func (u *Unit) elemRefFuns() {
+	u.declFun("elemref", "(Int Int) Int")
+	u.declFun("earr", "(Int) Int")
+	u.declFun("eidx", "(Int) Int")
+}
+
+func (u *Unit) loadPtr(h Heap, ref string, t types.Type) string {
+	c, s := u.memComp(t)
+	if !u.interior(t) || u.so.bv {
+		return sel(u.comp(h, c, s), ref)
+	}
+	u.elemRefFuns()
+	ec, es := u.elemComp(t)
+	return ite(app(">=", ref, "0"), sel(u.comp(h, c, s), ref), sel(sel(u.comp(h, ec, es), app("earr", ref)), app("eidx", ref)))
+}
+
 func (fr *Frame) load(lv *LV, h Heap) string {
 	u := fr.u
 	switch lv.kind {
 	case lvPtr:
-		c, s := u.memComp(lv.ty)
-		return sel(u.comp(h, c, s), lv.ref)
+		return u.loadPtr(h, lv.ref, lv.ty)
 	case lvGlobal:
 		c, s := u.globComp(lv.glob)
 		return u.comp(h, c, s)
@@ -317,6 +349,16 @@ func (fr *Frame) store(lv *LV, v string, h Heap) {
 	case lvPtr:
 		c, s := u.memComp(lv.ty)
 		cur := u.comp(h, c, s)
+		if u.interior(lv.ty) && !u.so.bv && !lv.fresh {
+			u.elemRefFuns()
+			ec, es := u.elemComp(lv.ty)
+			ecur := u.comp(h, ec, es)
+			isObj := app(">=", lv.ref, "0")
+			h[c] = u.define(c, s, ite(isObj, sto(cur, lv.ref, v), cur))
+			a, i := app("earr", lv.ref), app("eidx", lv.ref)
+			h[ec] = u.define(ec, es, ite(isObj, ecur, sto(ecur, a, sto(sel(ecur, a), i, v))))
+			return
+		}
 		h[c] = u.define(c, s, sto(cur, lv.ref, v))
 	case lvGlobal:
 		c, s := u.globComp(lv.glob)
